@@ -16,10 +16,14 @@ structure Att where
   hosted : Bool
   inRange : Bool
   outcome : String
+  /-- the client's own region object designated a connection to another server when this request
+  arrived (it had already learnt a newer location) -/
+  stale : Bool := false
 
 def parseAtt (s : String) : Option Att :=
   match s.splitOn "." with
-  | [k, a, h, i, o] => (a.toNat?).map (fun a => ⟨k, a, h = "1", i = "1", o⟩)
+  | [k, a, h, i, o] => (a.toNat?).map (fun a => ⟨k, a, h = "1", i = "1", o, false⟩)
+  | [k, a, h, i, o, "stale"] => (a.toNat?).map (fun a => ⟨k, a, h = "1", i = "1", o, true⟩)
   | _ => none
 
 def parseAtts (s : String) : Option (List Att) :=
@@ -34,6 +38,9 @@ def isUser (a : Att) : Bool := a.kind = "get" || a.kind = "mutate"
 def judgeReq (expect result : String) (atts : List Att) : Option String :=
   match atts.find? (fun a => a.hosted && !a.inRange) with
   | some a => some s!"SPEC key=key-sent-to-region-not-containing-it kind={a.kind}"
+  | none =>
+  match atts.find? (fun a => isUser a && a.stale) with
+  | some a => some s!"SPEC key=request-not-routed-from-the-known-location kind={a.kind} server={a.addr}"
   | none =>
   let user := atts.filter isUser
   if expect = "ok" then
